@@ -129,6 +129,8 @@ def h(sym, template, kind, site, M):
 
     def changeStamp(stamp):
         ticks[0] += 1
+        if ticks[0] > 40:
+            raise RuntimeError("run did not end within 40 ticks")
         rlog.append(("#tick", ticks[0], None, False))
         if site == "between" and ticks[0] == kb_at + 1:   # the first call happens before tick 0
             raise KeyboardInterrupt()
